@@ -233,7 +233,7 @@ class HexRunner:
             res.emit("hx.rrnew", "ok")
         # the tree-free executor (Model/HexFree.lean: root hash + database, raw-level _set/_delete produce the events, the pruning
         # bookkeeping applies them) run alongside every direct operation of a fresh trie, pruning on or off, until a batch occurs
-        self.free_sync = db is None
+        self.free_sync = db is None or len(db) == 0
         if self.free_sync:
             res.emit("hx.fnew %d" % (1 if prune else 0), "ok")
 
@@ -246,13 +246,13 @@ class HexRunner:
         except Exception as e:  # noqa
             out = fmt_exc(e)
         if free is not None and self.free_sync:
-            fk, fv = free
-            self.res.emit("hx.fop %s %s" % (hx(fk), "none" if fv is None else hx(fv)), out)
-            self.res.emit("hx.froot", hx(self.trie.root_hash))
+            ftg, ftrie, fk, fv = free
+            self.res.emit("hx.fop %s %s %s" % (ftg, hx(fk), "none" if fv is None else hx(fv)), out)
+            self.res.emit("hx.froot %s" % ftg, hx(ftrie.root_hash))
             self.res.emit("hx.fdb", fmt_db(self.db))
-            if self.prune:
-                self.res.emit("hx.fcounts", fmt_counts(self.trie.ref_count))
-            self.res.tags.add("tree-free-executor-tied")
+            if ftrie.is_pruning:
+                self.res.emit("hx.fcounts %s" % ftg, fmt_counts(ftrie.ref_count))
+            self.res.tags.add("tree-free-executor-tied" + (":batch" if ftg == "b" else ""))
         if raw is not None and out == "ok":
             # raw-level model (statement-by-statement transcription of _set/_delete over raw nodes) on the
             # database as it was before the call: new root and the entries the call added
@@ -296,23 +296,23 @@ class HexRunner:
         if kind == "set":
             v = bytes.fromhex(op[2])
             raw = raw_before and raw_before + (k, v)
-            out = self.call("hx.set %s %s %s" % (tg, hx(k), hx(v)), lambda: trie.set(sub_bytes(k, len(v)), sub_bytes(v, len(k) + len(v))), raw, (k, v) if tg == "0" else None)
+            out = self.call("hx.set %s %s %s" % (tg, hx(k), hx(v)), lambda: trie.set(sub_bytes(k, len(v)), sub_bytes(v, len(k) + len(v))), raw, (tg, trie, k, v))
         elif kind == "setitem":
             v = bytes.fromhex(op[2])
             raw = raw_before and raw_before + (k, v)
-            out = self.call("hx.set %s %s %s" % (tg, hx(k), hx(v)), lambda: trie.__setitem__(k, v), raw, (k, v) if tg == "0" else None)
+            out = self.call("hx.set %s %s %s" % (tg, hx(k), hx(v)), lambda: trie.__setitem__(k, v), raw, (tg, trie, k, v))
         elif kind == "sete":
             v = b""
             raw = raw_before and raw_before + (k, b"")
-            out = self.call("hx.set %s %s -" % (tg, hx(k)), lambda: trie.set(k, sub_bytes(b"", len(k))), raw, (k, b"") if tg == "0" else None)
+            out = self.call("hx.set %s %s -" % (tg, hx(k)), lambda: trie.set(k, sub_bytes(b"", len(k))), raw, (tg, trie, k, b""))
         elif kind == "del":
             v = b""
             raw = raw_before and raw_before + (k, None)
-            out = self.call("hx.del %s %s" % (tg, hx(k)), lambda: trie.delete(k), raw, (k, None) if tg == "0" else None)
+            out = self.call("hx.del %s %s" % (tg, hx(k)), lambda: trie.delete(k), raw, (tg, trie, k, None))
         elif kind == "delitem":
             v = b""
             raw = raw_before and raw_before + (k, None)
-            out = self.call("hx.del %s %s" % (tg, hx(k)), lambda: trie.__delitem__(k), raw, (k, None) if tg == "0" else None)
+            out = self.call("hx.del %s %s" % (tg, hx(k)), lambda: trie.__delitem__(k), raw, (tg, trie, k, None))
         else:
             raise ValueError(op)
         if out == "ok":
@@ -347,9 +347,10 @@ class HexRunner:
         ["failcommit", n] (the n-th write of the commit fails; needs a FailingDict)"""
         kind = exit_kind if isinstance(exit_kind, str) else exit_kind[0]
         self.rr_sync = False
-        self.free_sync = False
         self.res.tags.add("batch:" + kind)
         self.res.emit("hx.bbegin 0", "ok")
+        if self.free_sync:
+            self.res.emit("hx.fbbegin", "ok")
         bmodel = dict(self.model)
         raise_at = len(inner) if exit_kind == "raise" else (min(exit_kind[1], len(inner)) if kind == "raise" else None)
         outcome = None
@@ -365,26 +366,43 @@ class HexRunner:
                     raise boom(len(inner))
                 if kind == "failcommit":
                     self.res.emit("hx.failafter %d" % exit_kind[1], "ok")
+                    if self.free_sync:
+                        self.res.emit("hx.ffailafter %d" % exit_kind[1], "ok")
                     self.db.fail_after = exit_kind[1]
         except BOOMS as e:
             self.res.emit("hx.bend 1", "ok")
+            if self.free_sync:
+                self.res.emit("hx.fbend 1", "ok")
             outcome = "aborted"
             self.res.tags.add("abort-by:" + type(e).__name__)
         except WriteFailed:
             self.res.emit("hx.bend 0", "exn WriteFailed")
+            if self.free_sync:
+                self.res.emit("hx.fbend 0", "exn WriteFailed")
             outcome = "commit-failed"
         except Exception as e:  # noqa  (nothing else may leave a block on a complete database)
             self.res.emit("hx.bend 0", fmt_exc(e))
             self.res.fail("batch-raised", "squash_changes block raised %r" % (e,))
+            self.free_sync = False
             outcome = "raised"
         else:
             self.res.emit("hx.bend 0", "ok")
+            if self.free_sync:
+                self.res.emit("hx.fbend 0", "ok")
             self.model.clear()
             self.model.update(bmodel)
             outcome = "committed"
         if kind == "failcommit":
             self.db.fail_after = None
             self.res.emit("hx.failafter none", "ok")
+            if self.free_sync:
+                self.res.emit("hx.ffailafter none", "ok")
+        if self.free_sync:
+            # after the block: outer root, database and counts of the tree-free world
+            self.res.emit("hx.froot 0", hx(self.trie.root_hash))
+            self.res.emit("hx.fdb", fmt_db(self.db))
+            if self.prune:
+                self.res.emit("hx.fcounts 0", fmt_counts(self.trie.ref_count))
         self.res.tags.add("batch-outcome:" + outcome)
         self.last_batch_outcome = outcome
         if self.observe:
